@@ -441,3 +441,25 @@ def known_findings(pid):
         if ("property=%s " % pid) in rest + " ":
             out.append((kind.strip(), rest))
     return out
+
+
+def warnings_under_default_filters(stmt):
+    """[T] number of warnings that reach the CALLER of `stmt` in a fresh interpreter with Python's own warning filters
+    (no -W option, no simplefilter): `import persim` must not install a filter that swallows the library's own warnings.
+    `stmt` is Python source using `np` and `persim`.  -> (count, categories) or None if the probe itself failed"""
+    import subprocess, sys
+    code = ("import sys, warnings; sys.path.insert(0, %r)\n"
+            "import numpy as np\nimport persim\n"
+            "with warnings.catch_warnings(record=True) as w:\n"
+            "    %s\n"
+            "print('WARNED', len(w), sorted({type(x.message).__name__ for x in w}))\n" % (REPO, stmt))
+    env = dict(os.environ, MPLBACKEND="Agg", PYTHONDONTWRITEBYTECODE="1")
+    env.pop("PYTHONWARNINGS", None)
+    p = subprocess.run([sys.executable, "-c", code], stdout=subprocess.PIPE, stderr=subprocess.PIPE, env=env, timeout=300)
+    out = p.stdout.decode(errors="replace")
+    for line in out.split("\n"):
+        if line.startswith("WARNED "):
+            parts = line.split(" ", 2)
+            return int(parts[1]), parts[2]
+    return None
+
